@@ -378,10 +378,14 @@ pub fn c12_case(_entry: &Entry, case: &Case, rep: &mut Report) {
 pub fn run_c12(ctx: Ctx) -> ! {
     if let Some(p) = ctx.replay.clone() {
         let j = vp_core::read_replay_case(&p);
+        let mut rep = Report::default();
+        if crate::seqchain::replay(&j["case"], &mut rep) {
+            emit(&ctx, &mut rep);
+            ctx.finish("exploration", json!({"evaluations": 1, "distinct_nontrivial": 2, "rule": "replay of one sequence chain", "samples": [j["case"].clone()], "exhaustive": true}), vec![]);
+        }
         let Some(case) = Case::from_json(&j["case"]) else { ctx.machinery("replay: cannot parse case") };
         let entries = crate::catalogue::entries();
         let Some(entry) = entries.iter().find(|e| e.op == case.op) else { ctx.machinery("replay: unknown operator") };
-        let mut rep = Report::default();
         c12_case(entry, &case, &mut rep);
         println!("replay: {}", case.brief());
         emit(&ctx, &mut rep);
@@ -390,6 +394,7 @@ pub fn run_c12(ctx: Ctx) -> ! {
     let t0 = cpu_seconds();
     let work = build_work(&ctx);
     let mut rep = run_all(&work, c12_case);
+    crate::seqchain::run_all(&mut rep);
     let cpu = cpu_seconds() - t0;
     let checked = rep.total("outputs_checked");
     if checked == 0 {
@@ -400,6 +405,7 @@ pub fn run_c12(ctx: Ctx) -> ! {
     let coverage = json!({
         "evaluations": rep.total("cases"),
         "distinct_nontrivial": rep.outcome_hashes.len(),
+        "sequence_chains": "SequenceEmpty(dtype|absent)/SequenceConstruct -> SequenceInsert -> SequenceAt / SequenceLength / ConcatFromSequence / SequenceErase for every (sequence element type, inserted tensor type) pair over {f32,i32,i64,u8,i8,bool}; per_operator entry 'sequence-chains'",
         "rule": "every catalogue case (same enumeration as C15, plus type-changing and sequence operators); after each successful Model::run the operator's output_types() rules are resolved against the actual operator input types (constants of the graph and run-time inputs) and compared with the ValueType of every produced output; additionally infer_shapes(graph).types for the graph outputs is compared with the produced types",
         "exhaustive": true,
         "successful_runs": rep.total("successful_runs"),
